@@ -122,7 +122,7 @@ def make_mesh_contracts(name):
                 cx.prove("dominates_vertex[%d]" % k, CB(float(dot(V[k], delta) - dot(V[int(idx)], delta)) - SLACK_FACTOR * eps), tol=1e-9 * max(1.0, float(np.linalg.norm(delta))))
         cx.cover("end")
 
-    @contract("colliders.MeshGraph[%s].first_vertex+center+aabb" % name, fn="distance3d.colliders.MeshGraph.aabb", props=["C03", "C04"],
+    @contract("colliders.MeshGraph[%s].first_vertex+center+aabb" % name, fn="distance3d.colliders.MeshGraph.aabb", props=["C03", "C04", "C08", "C02"],
               deps=["distance3d.colliders.MeshGraph.first_vertex", "distance3d.colliders.MeshGraph.center"],
               opts=dict(minmax_ite=True))
     def _fv(cx):
